@@ -92,7 +92,9 @@ pub fn replay(c: &Value) -> Option<(String, String)> {
     let cfg: Config = serde_json::from_value(c["cfg"].clone()).ok()?;
     let corpus: Corpus = serde_json::from_value(c["corpus"].clone()).ok()?;
     let texts = gen::strings(&['a', 'b', 'あ', '1'], 2, 4);
-    check_case(&cfg, &corpus, &texts).1.map(|(k, w)| (sig(&k, &cfg, &corpus), w))
+    // training is randomised (liblinear's rand(), hash-map order): a systematic defect shows up
+    // again within a few attempts
+    (0..8).find_map(|_| check_case(&cfg, &corpus, &texts).1).map(|(k, w)| (sig(&k, &cfg, &corpus), w))
 }
 
 pub fn configs(tier: Tier) -> Vec<Config> {
